@@ -308,6 +308,9 @@ func (sp *specParser) expr(e ast.Expr) (*Sym, error) {
 		if p, ok := sp.params[x.Name]; ok {
 			return &Sym{Op: "param", Name: p}, nil
 		}
+		if strings.HasPrefix(x.Name, "free_") {
+			return &Sym{Op: "param", Name: x.Name}, nil
+		}
 		return nil, fmt.Errorf("unknown identifier %q in spec expression", x.Name)
 	case *ast.SelectorExpr:
 		b, err := sp.expr(x.X)
